@@ -1,6 +1,7 @@
 package main
 
 import (
+	"bytes"
 	"fmt"
 	"reflect"
 	"sort"
@@ -398,6 +399,9 @@ func runC20(seed int64, n int, tier string, outDir string) (*Report, error) {
 			rep.Distinguish("embedded:"+e.name+"|"+names[i], true)
 		}
 	}
+	if err := c20Deep(seed, n, tier, outDir, rep); err != nil {
+		return nil, err
+	}
 	var hn []string
 	for _, h := range helpers {
 		hn = append(hn, h.name)
@@ -411,3 +415,307 @@ func runC20(seed int64, n int, tier string, outDir string) (*Report, error) {
 }
 
 func c20Class(helper, nilName string, out c20Out) string { return "" }
+
+// ---- the embedded part at depth 1-3 ----
+//
+// A structured value (all 14 struct kinds at the root, nesting depth up to 3) gets nil-like items planted at random
+// positions of every level: nil item properties, list members (inserted or replacing), one-member lists in item
+// properties, Endpoints entries.  Every value is built twice from the same random choices: with typed nil pointers
+// (x) and with the untyped nil / nothing in the same places (its twin x').  Native evaluation, without the model:
+// no walker panics on x, and the encoder writes x exactly as it writes x'; Clean leaves x and x' with the same
+// encoding; ItemsEqual(x, x') and ItemsEqual(x', x) hold.  Correspondence, inside Coq: encoder bytes, Clean,
+// Flatten*Properties, Recipients and ItemsEqual on x against the models the theorems of Props/C20.v are about;
+// and scrub x = x' (the twin is the erasure the theorems speak of).
+
+func c20PlantList(l ap.ItemCollection, g *Gen, typed bool, depth int, count *int) ap.ItemCollection {
+	nilLike := func() ap.Item {
+		k := g.Intn(len(structTypes))
+		if typed {
+			return TypedNil(k)
+		}
+		return nil
+	}
+	switch g.Intn(5) {
+	case 0: // insert
+		pos := g.Intn(len(l) + 1)
+		out := make(ap.ItemCollection, 0, len(l)+1)
+		out = append(out, l[:pos]...)
+		out = append(out, nilLike())
+		out = append(out, l[pos:]...)
+		l = out
+		*count++
+	case 1: // replace
+		if len(l) > 0 {
+			pos := g.Intn(len(l))
+			out := append(ap.ItemCollection{}, l...)
+			out[pos] = nilLike()
+			l = out
+			*count++
+		}
+	}
+	for _, m := range l {
+		c20PlantItem(m, g, typed, depth+1, count)
+	}
+	return l
+}
+
+func c20PlantItem(it ap.Item, g *Gen, typed bool, depth int, count *int) {
+	if it == nil {
+		return
+	}
+	rv := reflect.ValueOf(it)
+	if rv.Kind() != reflect.Pointer || rv.IsNil() || rv.Elem().Kind() != reflect.Struct {
+		return
+	}
+	c20PlantStruct(rv.Elem(), g, typed, depth, count)
+}
+
+func c20PlantStruct(rv reflect.Value, g *Gen, typed bool, depth int, count *int) {
+	rt := rv.Type()
+	for i := 0; i < rt.NumField(); i++ {
+		f := rt.Field(i)
+		fv := rv.Field(i)
+		switch {
+		case f.Type == tItems:
+			if l := fv.Interface().(ap.ItemCollection); l != nil {
+				fv.Set(reflect.ValueOf(c20PlantList(l, g, typed, depth, count)))
+			} else if g.Intn(12) == 0 { // a list that holds only the nil-like item
+				k := g.Intn(len(structTypes))
+				if typed {
+					fv.Set(reflect.ValueOf(ap.ItemCollection{TypedNil(k)}))
+				} else {
+					fv.Set(reflect.ValueOf(ap.ItemCollection{nil}))
+				}
+				*count++
+			}
+		case f.Type.Kind() == reflect.Interface:
+			if fv.IsNil() {
+				switch g.Intn(8) {
+				case 0:
+					k := g.Intn(len(structTypes))
+					if typed {
+						fv.Set(reflect.ValueOf(TypedNil(k)))
+					}
+					*count++
+				case 1: // a one-member list in an item property: the compact encoder path
+					k := g.Intn(len(structTypes))
+					if typed {
+						fv.Set(reflect.ValueOf(ap.ItemCollection{TypedNil(k)}))
+					} else {
+						fv.Set(reflect.ValueOf(ap.ItemCollection{nil}))
+					}
+					*count++
+				}
+				continue
+			}
+			cur := fv.Interface().(ap.Item)
+			if l, ok := cur.(ap.ItemCollection); ok {
+				fv.Set(reflect.ValueOf(c20PlantList(l, g, typed, depth, count)))
+				continue
+			}
+			c20PlantItem(cur, g, typed, depth+1, count)
+		case f.Type == tEndp:
+			ep := fv.Interface().(*ap.Endpoints)
+			if ep == nil {
+				continue
+			}
+			ev := reflect.ValueOf(ep).Elem()
+			for j := 0; j < ev.NumField(); j++ {
+				if ev.Field(j).IsNil() && g.Intn(4) == 0 {
+					k := g.Intn(len(structTypes))
+					if typed {
+						ev.Field(j).Set(reflect.ValueOf(TypedNil(k)))
+					}
+					*count++
+				}
+			}
+		}
+	}
+}
+
+func c20Recover(f func()) (pan string) {
+	defer func() {
+		if r := recover(); r != nil {
+			pan = fmt.Sprint(r)
+		}
+	}()
+	f()
+	return ""
+}
+
+func c20Deep(seed int64, n int, tier string, outDir string, rep *Report) error {
+	total := 48
+	if tier == "thorough" {
+		total = 400
+	}
+	opts := DefaultOpts()
+	opts.Nanos = false
+	opts.Depth = 2
+	opts.FieldNum, opts.FieldDen = 1, 4
+	build := func(i int, typed bool) (ap.Item, int) {
+		g1 := NewGen(seed+int64(i), "C20deep")
+		o := opts
+		o.Depth = 2
+		if tier == "thorough" && i%3 == 0 {
+			o.Depth = 3
+		}
+		rt := structTypes[i%len(structTypes)]
+		x := g1.Struct(rt, o)
+		// the root is a pointer: value forms cannot be planted into
+		rv := reflect.ValueOf(x)
+		if rv.Kind() != reflect.Pointer {
+			pv := reflect.New(rv.Type())
+			pv.Elem().Set(rv)
+			x = pv.Interface().(ap.Item)
+		}
+		gp := NewGen(seed+int64(i), "C20plant")
+		count := 0
+		c20PlantItem(x, gp, typed, 1, &count)
+		return x, count
+	}
+	hdrE := "From AP.Model Require Import Prelude Vocab Json JsonLeaf JsonTables JsonEnc NilEmbed.\nFrom AP.Gen Require Import JsonW.\n" +
+		"Definition enc_is (i : item) (o : N * N) : bool :=\n" +
+		"  match marshal_json jw_tables i with Some b => (N.of_nat (length b) =? fst o)%N && (fnv64 b =? snd o)%N | None => false end.\n" +
+		"Definition ok (c : item * item * (N * N)) : bool := let '(x, twin, o) := c in\n" +
+		"  enc_is x o && enc_is twin o && enc_is (nilify x) o && item_eqb (scrub x) twin && has_typed_nil x.\n"
+	cwE := NewCaseWriter(outDir, "Cases_C20_deep_enc", hdrE, "item * item * (N * N)")
+	cwE.SetChunk(8, 1)
+	hdrC := "From AP.Model Require Import Prelude Vocab Pred Clean CleanGen NilEmbed.\n" +
+		"Definition ok (c : item * item * item) : bool := let '(x, ret, after) := c in\n" +
+		"  match clean_m x with Ok a => item_eqb a after && item_eqb (clean_recipients_ret x a) ret | _ => false end &&\n" +
+		"  outcome_eqb item_eqb (clean_m (nilify x)) (omap nilify (clean_m x)).\n"
+	cwC := NewCaseWriter(outDir, "Cases_C20_deep_clean", hdrC, "item * item * item")
+	cwC.SetChunk(8, 1)
+	hdrF := "From AP.Model Require Import Prelude Vocab Pred IriEq Recip Flatten.\n" +
+		"Definition ok (c : fkind * item * outcome item) : bool := let '(fk, x, o) := c in\n" +
+		"  match x with IObj true k fs => match flatten_fields_m fk fs with Err => true | m => outcome_eqb item_eqb (omap (IObj true k) m) o end | _ => false end.\n"
+	cwF := NewCaseWriter(outDir, "Cases_C20_deep_flatten", hdrF, "fkind * item * outcome item")
+	cwF.SetChunk(8, 1)
+	hdrR := "From AP.Model Require Import Prelude Vocab Pred IriEq Recip.\n" +
+		"Definition ok (c : item * outcome (item * item)) : bool := let '(x, o) := c in\n" +
+		"  outcome_eqb (pair_eqb item_eqb item_eqb) (recipients_m x) o.\n"
+	cwR := NewCaseWriter(outDir, "Cases_C20_deep_recipients", hdrR, "item * outcome (item * item)")
+	cwR.SetChunk(8, 1)
+	hdrQ := "From AP.Model Require Import Prelude Vocab Pred IriEq Equal NilEmbed.\n" +
+		"Definition ok (c : item * item * outcome bool * outcome bool) : bool := let '(x, twin, a, b) := c in\n" +
+		"  outcome_eqb Bool.eqb (ieq x twin) a && outcome_eqb Bool.eqb (ieq twin x) b &&\n" +
+		"  outcome_eqb Bool.eqb (ieq x (nilify x)) (Ok true) && outcome_eqb Bool.eqb (ieq (nilify x) x) (Ok true).\n"
+	cwQ := NewCaseWriter(outDir, "Cases_C20_deep_equal", hdrQ, "item * item * outcome bool * outcome bool")
+	cwQ.SetChunk(8, 1)
+
+	viol := func(op, input, want, got string) {
+		rep.Violate(Violation{Op: "embedded-deep:" + op, Input: input, Expected: want, Observed: got})
+	}
+	done := 0
+	for i := 0; done < total && i < 20*total; i++ {
+		x, cnt := build(i, true)
+		if cnt == 0 {
+			continue
+		}
+		done++
+		twin, _ := build(i, false)
+		xs, ts := CoqItem(x), CoqItem(twin)
+		rep.Evaluations++
+		rep.Distinguish("deep:"+xs, true)
+		rep.Count(fmt.Sprintf("deep:planted-%d", min(cnt, 6)))
+		label := fmt.Sprintf("deep seed=%d index=%d kind=%s planted=%d", seed, i, structTypes[i%len(structTypes)].Name(), cnt)
+
+		// encoder
+		var b1, b2 []byte
+		if pan := c20Recover(func() { b1, _ = ap.MarshalJSON(x) }); pan != "" {
+			viol("MarshalJSON", xs, "no panic", pan)
+		}
+		if pan := c20Recover(func() { b2, _ = ap.MarshalJSON(twin) }); pan != "" {
+			viol("MarshalJSON(twin)", ts, "no panic", pan)
+		}
+		if !bytes.Equal(b1, b2) {
+			viol("MarshalJSON", xs, "the bytes written for the twin with untyped nils / unset properties: "+string(b2), string(b1))
+		}
+		cwE.Add("("+xs+", "+ts+", "+hxSum(b1)+")", label)
+
+		// gob encoder: no panic (the gob codec has no model of nested values: C03)
+		if pan := c20Recover(func() { _, _ = ap.GobEncode(x) }); pan != "" {
+			viol("GobEncode", xs, "no panic", pan)
+		}
+
+		// Clean
+		{
+			v, _ := build(i, true)
+			var ret ap.Item
+			if pan := c20Recover(func() { ret = ap.CleanRecipients(v) }); pan != "" {
+				viol("CleanRecipients", xs, "no panic", pan)
+			} else {
+				cwC.Add("("+xs+", "+CoqItem(ret)+", "+CoqItem(v)+")", label)
+				w, _ := build(i, false)
+				var j1, j2 []byte
+				pan := c20Recover(func() {
+					_ = ap.CleanRecipients(w)
+					j1, _ = ap.MarshalJSON(v)
+					j2, _ = ap.MarshalJSON(w)
+				})
+				if pan == "" && !bytes.Equal(j1, j2) {
+					viol("CleanRecipients", xs, "same encoding as the cleaned twin: "+string(j2), string(j1))
+				}
+			}
+		}
+		// Flatten*Properties on the four struct types they take
+		{
+			v, _ := build(i, true)
+			kind := reflect.TypeOf(v).Elem().Name()
+			if fk, ok := c16FK[kind]; ok {
+				pan := c16Apply(kind, v)
+				if pan != "" {
+					viol("Flatten"+kind+"Properties", xs, "no panic", pan)
+				}
+				cwF.Add("("+fk+", "+xs+", "+c16Outcome(pan, CoqItem(v))+")", label)
+			}
+			v2, _ := build(i, true)
+			if pan := c20Recover(func() { _ = ap.FlattenProperties(v2) }); pan != "" {
+				viol("FlattenProperties", xs, "no panic", pan)
+			}
+		}
+		// Recipients
+		{
+			v, _ := build(i, true)
+			if hr, ok := v.(interface{ Recipients() ap.ItemCollection }); ok {
+				var r ap.ItemCollection
+				pan := c20Recover(func() { r = hr.Recipients() })
+				if pan != "" {
+					viol("Recipients", xs, "no panic", pan)
+				}
+				cwR.Add("("+xs+", "+c10CoqOutcome(pan, "("+CoqItem(r)+", "+CoqItem(v)+")")+")", label)
+			}
+		}
+		// ItemsEqual with the twin, both orders
+		{
+			var e1, e2 bool
+			p1 := c20Recover(func() { e1 = ap.ItemsEqual(x, twin) })
+			p2 := c20Recover(func() { e2 = ap.ItemsEqual(twin, x) })
+			if p1 != "" || p2 != "" {
+				viol("ItemsEqual", xs, "no panic", p1+" "+p2)
+			} else if !e1 || !e2 {
+				viol("ItemsEqual", xs, "a value equals its twin with untyped nils, in both orders", fmt.Sprintf("ItemsEqual(x, twin)=%v ItemsEqual(twin, x)=%v", e1, e2))
+			}
+			if p := c20Recover(func() { _ = ap.ItemsEqual(x, x) }); p != "" {
+				viol("ItemsEqual(x,x)", xs, "no panic", p)
+			}
+			cwQ.Add("("+xs+", "+ts+", "+c10CoqOutcome(p1, cbool(e1))+", "+c10CoqOutcome(p2, cbool(e2))+")", label)
+		}
+		// other walkers: no panic
+		if pan := c20Recover(func() {
+			_ = ap.IsNil(x)
+			_ = ap.NotEmpty(x)
+			_ = fmt.Sprintf("%v", x)
+			_, _ = ap.CopyItemProperties(x, twin)
+		}); pan != "" {
+			viol("IsNil/NotEmpty/Format/CopyItemProperties", xs, "no panic", pan)
+		}
+	}
+	rep.Notes = append(rep.Notes, fmt.Sprintf("embedded-deep: %d values (nesting depth 3, thorough: 4) with nil-like items planted at every level, each with its untyped twin", done))
+	for _, w := range []*CaseWriter{cwE, cwC, cwF, cwR, cwQ} {
+		if err := rep.AddCases(w); err != nil {
+			return err
+		}
+	}
+	return nil
+}
